@@ -27,12 +27,18 @@ FamD1 == D1B \cup D1N
 FamQ1 == QuantLevel(D1B)
 
 \* ---------- depth 2, core leaves ----------
+\* quick: 3 Boolean / 3 numeric core leaves, inner implies/iff only over fluents, no inner division;
+\* thorough: 4 / 5 core leaves (with the static fluents sp(o1), s), every operator at both levels.
+Quick == Tier = "quick"
 CoreBQuick == {B1f, B2f, TRUEc}
 CoreNQuick == {Nf, Num(1, 1), Num(0 - 1, 1)}
 CoreBThorough == {B1f, B2f, TRUEc, Fl1("sp", O1)}
-CoreNThorough == {Nf, Sf, Num(0, 1), Num(1, 1), Num(0 - 1, 1), Num(1, 2)}
-CB1 == CoreB \cup {Op1("not", a) : a \in CoreB} \cup {Op2(o, a, b) : o \in BoolOps, a \in CoreB, b \in CoreB}
-CN1 == CoreN \cup NumLevel(CoreN)
+CoreNThorough == {Nf, Sf, Num(0, 1), Num(1, 1), Num(0 - 1, 1)}
+CB1 == CoreB \cup {Op1("not", a) : a \in CoreB}
+       \cup {Op2(o, a, b) : o \in {"and", "or"}, a \in CoreB, b \in CoreB}
+       \cup {Op2(o, a, b) : o \in {"implies", "iff"}, a \in (IF Quick THEN CoreB \ {TRUEc} ELSE CoreB),
+                                                       b \in (IF Quick THEN CoreB \ {TRUEc} ELSE CoreB)}
+CN1 == CoreN \cup {Op2(o, a, b) : o \in (IF Quick THEN NumOps \ {"div"} ELSE NumOps), a \in CoreN, b \in CoreN}
 CC1 == {Op2(o, a, b) : o \in CmpOps, a \in CoreN, b \in CoreN}
 FamD2 == ({Op1("not", a) : a \in CB1 \cup CC1}
           \cup {Op2(o, a, b) : o \in BoolOps, a \in CB1, b \in CB1}
@@ -44,15 +50,18 @@ EqO == {Op2("eq", a, b) : a \in ObjAtoms, b \in ObjAtoms}
 EqX == {e \in EqO : e.args[1] = X \/ e.args[2] = X}
 QB  == {Fl1("p", X), Fl1("p", Q), B1f, Fl1("sp", X), TRUEc, Op1("not", Fl1("p", X)), Fl1("p", Fl1("nxt", X))}
 QBs == {Fl1("p", X), B1f, Fl1("sp", X), Op2("eq", Fl1("nxt", X), O1)}
-Conj2 == {Op2("and", a, b) : a \in EqO \cup QB, b \in EqO \cup QB}
+\* binary conjunctions: quick = at least one conjunct equates x directly with a term
+Conj2 == IF Quick
+         THEN {Op2("and", a, b) : a \in EqX, b \in EqO \cup QB} \cup {Op2("and", a, b) : a \in EqO \cup QB, b \in EqX}
+         ELSE {Op2("and", a, b) : a \in EqO \cup QB, b \in EqO \cup QB}
 Conj3 == {Op3("and", e, a, b) : e \in EqX, a \in QBs, b \in QBs}
-         \cup {Op3("and", a, e, b) : e \in EqX, a \in QBs, b \in QBs}
-         \cup {Op3("and", e, f, a) : e \in EqX, f \in EqX, a \in QBs}
+         \cup {Op3("and", e, f, a) : e \in EqX, f \in EqX, a \in (IF Quick THEN {Fl1("p", X)} ELSE QBs)}
+         \cup (IF Quick THEN {} ELSE {Op3("and", a, e, b) : e \in EqX, a \in QBs, b \in QBs})
 Inner == {Fl1("p", X), Op2("eq", X, Fl1("nxt", X)), Op2("eq", X, Q), Op2("and", Op2("eq", X, O1), Fl1("p", X))}
 Nested == {Op2("and", e, Qx(o, a)) : e \in EqX, o \in {"exists", "forall"}, a \in Inner}
-Bodies == Conj2 \cup Conj3 \cup Nested
 Outer == {Op2(o, Qx("exists", Op2("and", e, a)), b) : o \in {"and", "or"}, e \in EqX, a \in QBs, b \in {Fl1("p", X), Op2("eq", X, O1)}}
-FamQE == (QuantLevel(Bodies) \cup Outer) \ FamQ1
+FamQE == (QuantLevel(Conj2) \cup {Qx("exists", a) : a \in Conj3 \cup Nested}
+          \cup (IF Quick THEN {} ELSE {Qx("forall", a) : a \in Conj3 \cup Nested}) \cup Outer) \ FamQ1
 
 Cases == [f \in {"d1", "q1", "d2", "qe"} |->
             CASE f = "d1" -> FamD1 [] f = "q1" -> FamQ1 [] f = "d2" -> FamD2 [] f = "qe" -> FamQE]
